@@ -34,7 +34,7 @@ func TestVerif_C29_Flood(t *testing.T) {
 		"non-trivial = history with >=1 accepted genuine command replayed after >=1 cleanup or filler burst; " +
 		"distinct by hash of the step list")
 	r.Assume("an adversary cannot produce a valid Ed25519 signature; replays are byte-identical in their signed part")
-	n := r.N(1200, 15000)
+	n := r.N(1200, 10000)
 	r.Cases("hist", n, func(ci int, rng *verifkit.Rand) { c29FloodCase(r, "hist", ci, rng) })
 	r.Require("first_accepts", 1000)
 	r.Require("replays_judged", 2000)
